@@ -5,6 +5,7 @@ import (
 	"go/constant"
 	"go/token"
 	"go/types"
+	"sync"
 
 	"golang.org/x/tools/go/ssa"
 )
@@ -143,6 +144,11 @@ func (r *Result) evalStruct(v ssa.Value, st pstate, depth int) Abs {
 			if e == v {
 				continue
 			}
+			// an incoming edge whose own branch condition (or that of the single block before it) is decided the
+			// other way cannot have been taken: `a || b` with a known true is true although b is not
+			if depth < 10 && !r.edgeFeasible(x.Block().Preds[i], x.Block(), st, depth) {
+				continue
+			}
 			a := r.eval(e, pstate{fr: st.fr, pred: -2, blk: x.Block().Preds[i].Index}, depth+1)
 			if a.K == KUnknown {
 				return AUnknown
@@ -160,6 +166,11 @@ func (r *Result) evalStruct(v ssa.Value, st pstate, depth int) Abs {
 			// load of a non-escaping local (e.g. the result slot go/ssa spills
 			// returns into when the function has defers): the value stored
 			// last in the same block
+			// a package-level error variable that its package initialises once with an error constructor and
+			// never assigns again (var ErrX = errors.New(..)) is non-nil
+			if g, ok := x.X.(*ssa.Global); ok && sentinelError(g) {
+				return ANonNil
+			}
 			if al, ok := x.X.(*ssa.Alloc); ok && !allocEscapes(al) {
 				var last ssa.Value
 				for _, in := range x.Block().Instrs {
@@ -242,6 +253,95 @@ func (r *Result) evalStruct(v ssa.Value, st pstate, depth int) Abs {
 		return ANonNil
 	}
 	return AUnknown
+}
+
+// edgeFeasible: false only if the branch that decides whether control goes from p to b is evaluated (independently
+// of the path) to go elsewhere.
+func (r *Result) edgeFeasible(p, b *ssa.BasicBlock, st pstate, depth int) bool {
+	decided := func(from, to *ssa.BasicBlock) (known, taken bool) {
+		if len(from.Instrs) == 0 {
+			return false, false
+		}
+		iff, ok := from.Instrs[len(from.Instrs)-1].(*ssa.If)
+		if !ok || from.Succs[0] == from.Succs[1] {
+			return false, false
+		}
+		c := r.eval(iff.Cond, pstate{fr: st.fr, pred: -2, blk: from.Index}, depth+2)
+		v, isB := c.IsBool()
+		if !isB {
+			return false, false
+		}
+		if v {
+			return true, from.Succs[0] == to
+		}
+		return true, from.Succs[1] == to
+	}
+	if known, taken := decided(p, b); known && !taken {
+		return false
+	}
+	if len(p.Preds) == 1 {
+		if known, taken := decided(p.Preds[0], p); known && !taken {
+			return false
+		}
+	}
+	return true
+}
+
+var sentinelCache sync.Map
+
+// sentinelError: the global is stored exactly once in its whole package, by the package initialiser, with the result
+// of an error constructor.
+func sentinelError(g *ssa.Global) bool {
+	if v, ok := sentinelCache.Load(g); ok {
+		return v.(bool)
+	}
+	res := false
+	if g.Pkg != nil && isNillable(g.Type().(*types.Pointer).Elem()) {
+		stores, good := 0, 0
+		var scan func(fn *ssa.Function)
+		scan = func(fn *ssa.Function) {
+			for _, b := range fn.Blocks {
+				for _, in := range b.Instrs {
+					st, isSt := in.(*ssa.Store)
+					if !isSt || st.Addr != ssa.Value(g) {
+						continue
+					}
+					stores++
+					if fn.Name() != "init" {
+						continue
+					}
+					v := st.Val
+					if mi, isMI := v.(*ssa.MakeInterface); isMI {
+						v = mi.X
+					}
+					if c, isC := v.(*ssa.Call); isC {
+						if callee := c.Call.StaticCallee(); callee != nil && ErrorCtors[callee.String()] {
+							good++
+						}
+					}
+				}
+			}
+			for _, a := range fn.AnonFuncs {
+				scan(a)
+			}
+		}
+		for _, m := range g.Pkg.Members {
+			if fn, isF := m.(*ssa.Function); isF {
+				scan(fn)
+			}
+			if tp, isT := m.(*ssa.Type); isT {
+				ms := g.Pkg.Prog.MethodSets.MethodSet(types.NewPointer(tp.Type()))
+				for i := 0; i < ms.Len(); i++ {
+					if fn := g.Pkg.Prog.MethodValue(ms.At(i)); fn != nil && fn.Pkg == g.Pkg {
+						scan(fn)
+					}
+				}
+			}
+		}
+		res = stores == 1 && good == 1
+	}
+	sentinelCache.Store(g, res)
+	return res
 }
 
 func nilness(a Abs) Abs {
